@@ -574,8 +574,14 @@ class Extract:
                                 self.env.pop(nm.id, None)
                                 self.env[nm.id] = Poly.atom(nm.id)
             elif isinstance(st, ast.AugAssign) and isinstance(st.target, ast.Name):
-                cur = self.ev(ast.Name(id=st.target.id, ctx=ast.Load()))
-                v = self.ev(st.value)
+                try:
+                    cur = self.ev(ast.Name(id=st.target.id, ctx=ast.Load()))
+                    v = self.ev(st.value)
+                except Unsupported:
+                    if stop_on_unsupported or self.strict:
+                        raise
+                    self.env[st.target.id] = Poly.atom(st.target.id + "'")
+                    continue
                 ops = {ast.Add: lambda a, b: a + b, ast.Sub: lambda a, b: a - b, ast.Mult: lambda a, b: a * b,
                        ast.Div: lambda a, b: a * power(b, -1)}
                 if type(st.op) not in ops:
@@ -583,7 +589,11 @@ class Extract:
                 self.env[st.target.id] = elementwise(ops[type(st.op)], cur, v)
             elif isinstance(st, ast.Return):
                 if st.value is not None:
-                    self.env["return"] = self.ev(st.value)
+                    try:
+                        self.env["return"] = self.ev(st.value)
+                    except Unsupported:
+                        if stop_on_unsupported or self.strict:
+                            raise
             elif isinstance(st, ast.Expr):
                 continue
         return self.env
